@@ -11,7 +11,7 @@ import (
 
 var c02def = &atomCheckDef{id: "C02", cats: allCats, cfgs: []string{"default"}, per: 1, judge: judgeC02}
 var c03def = &atomCheckDef{id: "C03", cats: allCats, cfgs: []string{"default"}, per: 1, judge: judgeC03}
-var c04def = &atomCheckDef{id: "C04", cats: []string{"operator", "shift", "conv", "builtin", "compare"}, cfgs: []string{"default"}, per: 1, judge: judgeC04}
+var c04def = &atomCheckDef{id: "C04", cats: []string{"operator", "shift", "conv", "builtin", "compare", "constgroup"}, cfgs: []string{"default"}, per: 1, judge: judgeC04}
 var c17def = &atomCheckDef{id: "C17", cats: allCats, cfgs: []string{"default", "xgo", "bare"}, per: 1, judge: judgeC17, noComp: true}
 
 func nestedConstN(tier string) int {
